@@ -109,6 +109,10 @@ type Req struct {
 	// Rootless: the http.Request's URL.Path lacks its leading slash (what URL.JoinPath returns
 	// for a base without a path); URL.String() - the target URI - is still URL.
 	Rootless bool `json:"rootless,omitempty"`
+	// StaleRawPath: URL.RawPath holds a hint that is not an encoding of URL.Path (the caller
+	// assigned Path after parsing, as path.Join on a parsed base does); net/url ignores such a
+	// hint, so the target URI is still URL.
+	StaleRawPath bool `json:"stale_raw_path,omitempty"`
 	// NilReqHeader: the caller's request has no header map at all (http.Request{Method, URL}).
 	NilReqHeader bool `json:"nil_req_header,omitempty"`
 	// LegacyCancel: the request carries a Request.Cancel channel (as http.Client sets for its
